@@ -118,7 +118,11 @@ pub fn run(tier: Tier) -> i32 {
     let ctx = Ctx::new("C11", tier, "model_checking");
     let (extra, devs) = if ctx.quick() { (4, 3) } else { (6, 4) };
     ctx.set_rule(format!("explicit-state BFS over call sequences on both endpoints (valid/undersized writes, reads of genuine/stale/garbage messages, both conversions, transport writes/reads) for all 38 patterns and one psk variant each; depth 2*#messages+2+{extra}, at most {devs} out-of-phase/failing calls per path; each transition on real snow objects vs the {{role, position, phase}} model"));
-    let ps = protos();
+    let mut ps = protos();
+    if !ctx.quick() {
+        // every psk-modifier subset of every pattern (556 names)
+        ps = refnoise::patterns::all_protos_for_suite(DhAlg::X25519, CipherAlg::ChaChaPoly, HashAlg::Blake2s);
+    }
     ps.par_iter().for_each(|p| {
         let mut cfg = Config::honest(p, 0);
         cfg.record = true;
